@@ -4,7 +4,7 @@ import nodecheck
 PROFILE = dict(outbound=0.4)
 W = nodecheck.weights(tick=10, dwa=3, dwr=2, request=2, app_answer=2)
 N_QUICK, N_THOROUGH, LENGTH = 60, 1500, 22
-THEMES = (("watchdog", 600, 0, None, 0), ("late_cer", None, 0, None, 0), ("fragments", 300, 0, None, 0), ("ready", 1, 20, 2, 300))
+THEMES = (("watchdog", 600, 0, None, 0), ("busy_sender", 260, 0, None, 0), ("late_cer", None, 0, None, 0), ("fragments", 300, 0, None, 0), ("ready", 1, 20, 2, 300))
 FILES = ["Props/C11.v"]
 
 
